@@ -109,6 +109,7 @@ class Evaluator:
         self.stamp_loops = stamp_loops
         self.site_loc = {}
         self.site_effect = {}
+        self.phi_sites = {}   # key of a ("phi", key, ..) term -> {(body id, block): frame} of its assignments (see phi_def_ctrl)
         self.upd_sites = {}   # key of an ("upd", key, ..) term -> [(frame, block)] of its projection writes (see upd_write_ctrl)
 
     def frame(self, body, env=None, chain=()):
@@ -119,6 +120,11 @@ def upd_write_ctrl(ev, upd):
     """control context (within the writing function) of every projection write folded into an ("upd", key, base, writes) term:
     [ctrl tuple per write site]; an `upd` says WHAT is written where, this says under which guards / loops"""
     return [fr.ctrl_of_block(bi) for (_, bi), fr in ev.upd_sites.get(upd[1], {}).items()]
+
+
+def phi_def_ctrl(ev, phi):
+    """control context (within the assigning function) of every assignment merged into a ("phi", key, members) term"""
+    return [fr.ctrl_of_block(bi) for (_, bi), fr in ev.phi_sites.get(phi[1], {}).items()]
 
 
 class Frame:
@@ -254,6 +260,7 @@ class Frame:
         self.inprog.add(l)
         try:
             members = []
+            mblock = []
             for (kind, bi, si) in self.defs.get(l, []):
                 if not self._live_busy and not self.is_live(bi):
                     continue
@@ -264,6 +271,18 @@ class Frame:
                     tm = self.call_term(bi)
                 if tm not in members:
                     members.append(tm)
+                    mblock.append(bi)
+            if len(mblock) > 1 or any(_mentions_rec(m, key) for m in members):
+                self.ev.phi_sites.setdefault(key, {}).update({(self.body.id, bi): self for bi in mblock})
+            if any(_mentions_rec(m, key) for m in members):
+                # a loop-carried value {init, step(previous)} is read by the rules as a fold: step applied on EVERY iteration.  When some
+                # completed iteration of a loop can skip every assignment (`if c { acc = f(acc) }`), the steps assigned in that loop
+                # are marked ("guarded", step) so that no fold pattern matches them
+                lv = None if self._live_busy else self.live()
+                clean = cfg.every_iteration_passes(self.body, set(mblock), lv)
+                bad = [nodes for (h, nodes, _) in cfg.natural_loops(self.body) if clean.get(h) is False]
+                if bad:
+                    members = [("guarded", m) if any(bi in nodes for nodes in bad) else m for m, bi in zip(members, mblock)]
             if 1 <= l <= self.body.argc:
                 # parameter that is also reassigned
                 p = self.env[l] if (self.env is not None and l in self.env) else ("param", self.body.path, l, self.body.local_name(l) or "_%d" % l)
